@@ -400,6 +400,7 @@ func (ld *Layerdefs) RebaseLayer(name, newbase string) error {
 		return err
 	}
 	oldbase := layer.Base
+	layer.Base = newbase
 	err = ld.checkInheritance()
 	if err != nil {
 		layer.Base = oldbase
@@ -412,11 +413,11 @@ func (ld *Layerdefs) RebaseLayer(name, newbase string) error {
 		}
 		err = child.errorIfBusy("rebase parent", true)
 		if err != nil {
+			layer.Base = oldbase
 			return err
 		}
 	}
 
-	layer.Base = newbase
 	ld.normalizeOrder()
 	err = ld.writeLayerFile(layer)
 	if err != nil {
